@@ -380,3 +380,19 @@ package scheduler
 //@ frame own scheduler.Scheduler.donec #0 set-at-allocation: channel
 //@ frame own scheduler.Scheduler.concurrency #0 set-at-allocation: configured limit
 //@ frame own scheduler.Scheduler.continueOnError #0 set-at-allocation: configured mode
+
+// ---------------------------------------------------------------------------
+// C05 / C06 / C09: where package scheduler may block. Every blocking channel
+// operation (send, receive, blocking select), per root function, in source
+// order. Anything else that blocks is a failed obligation: the loop may be
+// held up only in its select and in the final drain of enqueuec (which ends
+// when Wait closes the channel), Wait only in its select (which has the ctx
+// arm), Enqueue only in its one send, a worker only on readyc and donec.
+
+//@ frame blocking scheduler.run #1 recv-enqueuec: the deferred drain of enqueuec; runs last (registered first), ends when Wait closes enqueuec
+//@ frame blocking scheduler.run #2 select: the Scheduler Loop's only select
+//@ frame blocking scheduler.Wait #1 select: finishedc or ctx.Done()
+//@ frame blocking scheduler.Enqueue #1 send-enqueuec: received by the loop's select or by its final drain
+//@ frame blocking scheduler.worker #1 send-donec: a dying worker reports its job (deferred); donec has room by A2
+//@ frame blocking scheduler.worker #2 recv-readyc: range over readyc, ends when the loop closes it
+//@ frame blocking scheduler.worker #3 send-donec: one result per received job; donec has room by A2
